@@ -24,7 +24,8 @@ RULE = ("(i) mstep-T: generated weighted data (d=1..6, n=2d..200; separated / ov
         "covariances_, lower_bound_ at 1e-8*(1+scale)+1e-12*cond*(1+maha). Runs whose outcome hangs on a scipy refusal, a denormal responsibility, a "
         "convergence / best-restart tie or ill-conditioning are tagged `sensitive:*` and a difference there is a near tie, not a disagreement. "
         "(ii) split-X: real HierarchicalGaussianMixture.fit (2-4 blobs incl. an undersized one, duplicates, skewed weights; max_iterations in {0,1,2,1000}, "
-        "min_points in {None, small, large}, threshold_modifier in {0.1,1,10}, normalize on/off, 'full'/'diag', n_init 1 or 2) with tempest.cluster.GaussianMixture "
+        "min_points in {None, small, large}, threshold_modifier in {0.1,1,10}, normalize on/off, 'full'/'diag', n_init 1 or 2; every tenth case 4-8 separated blobs of "
+        "unequal sizes on a line / anisotropic grid / nested layout, giving 3-7 accepted splits in varied orders) with tempest.cluster.GaussianMixture "
         "replaced by a recording subclass; the oracle model replays the recorded scores/child labels. hfit-T: the same real run vs the model's WHOLE hfit "
         "(normalisation, inner mixture fits under RandomState(42)'s tape, BIC, threshold, split loop, final per-cluster fits, denormalisation, cluster weights) "
         "and its predict / predict_proba on 23 query points (training points, N(0,30), +-1e6, 1e150, 1e200 mixed signs, 1e308, NaN, +-inf) on the mixture path and "
@@ -975,7 +976,49 @@ def examined_from_log(hg, log, d):
     return ex, final
 
 
+def gen_multi_split_case(rs, i):
+    """4-8 well separated blobs of unequal sizes on a line / an anisotropic grid / a nested layout (groups of groups): several
+    accepted splits (typically K-1 = 3..7) in varied orders — which child of an earlier split is split first depends on the
+    sizes and gaps — so that the history of the cluster LIST (pop at a position, two appends) matters"""
+    d = int(rs.randint(1, 4))
+    kb = int(rs.randint(4, 9))
+    layout = ["line", "grid", "nested"][i % 3]
+    if d == 1:
+        layout = "line" if layout == "grid" else layout
+    if layout == "line":
+        pos = np.cumsum(rs.uniform(8, 40, kb))
+        cen = np.zeros((kb, d))
+        cen[:, 0] = pos
+    elif layout == "grid":
+        gx = int(np.ceil(kb / 2))
+        cen = np.zeros((kb, d))
+        step = (rs.uniform(25, 60), rs.uniform(5, 10))
+        for j in range(kb):
+            cen[j, 0] = (j % gx) * step[0]
+            cen[j, 1] = (j // gx) * step[1]
+    else:
+        g = int(rs.randint(2, 4))
+        sup = rs.normal(0, 120, (g, d))
+        cen = np.array([sup[j % g] + rs.normal(0, 12, d) for j in range(kb)])
+    cen = cen[rs.permutation(kb)]
+    sizes = [int(rs.randint(12, 45)) for _ in range(kb)]
+    sd = rs.uniform(0.3, 0.8)
+    X = np.vstack([cen[j] + rs.normal(0, sd, (sizes[j], d)) for j in range(kb)])
+    if rs.rand() < 0.5:
+        X = X[rs.permutation(len(X))]
+    n = len(X)
+    wf = ["ones", "int", "skewed", "ones"][(i // 3) % 4]
+    w = None if wf == "ones" else gen_weights(rs, n, wf)
+    if wf == "skewed":
+        w = np.exp(rs.normal(0, 1, n))
+    kw = dict(max_iterations=[1000, 10, 1000, 4][int(rs.randint(0, 4))], min_points=[None, None, 5][int(rs.randint(0, 3))],
+              threshold_modifier=[1.0, 0.1, 1.0][int(rs.randint(0, 3))], normalize=bool(rs.rand() < 0.5), covariance_type="full")
+    return X, w, kw, dict(shape="multi:" + layout, sizes=sizes, wf=wf, mp_kind="none" if kw["min_points"] is None else "small")
+
+
 def gen_split_case(rs, i):
+    if i % 10 == 9:
+        return gen_multi_split_case(rs, i // 10)
     d = int(rs.randint(1, 4))
     shape = ["balanced", "undersized", "overlap", "dups", "balanced", "undersized", "overlap", "dups", "line"][i % 9]
     kb = int(rs.randint(2, 5))
@@ -1513,6 +1556,12 @@ def search(tier, hints):
     found = []
     cands = []
     rng = common.rng_for("C15.search")
+    # 0. histories of several accepted splits in varied orders (4-8 separated blobs on lines / grids / nested layouts): the
+    #    statement's own oracle — every training point exactly one label in [0,K), sizes >= min_points, weights sum to 1, K <= cap
+    for i in range(30 if tier == "quick" else 300):
+        rs = _np_rng(rng)
+        X, w, kw, _ = gen_multi_split_case(rs, i)
+        cands.append(dict(kind="hgmm", X=X.tolist(), w=_tolist(w), kw=kw, queries=_queries(rs, X)))
     # 1. inputs on which model and code disagreed
     for h in hints:
         sk = h.get("suite_kind")
